@@ -29,6 +29,7 @@ pub fn decode_log<K: Kind>(cfg: &SpaceCfg, vlog: &[(Vec<f64>, bool)]) -> Decoded
 pub fn oracle_a<K: Kind>(
     ks: &KSpace<K>,
     log: &DecodedLog<K>,
+    from: usize,
     upto: usize,
     a: &[f64],
     b: &[f64],
@@ -39,7 +40,7 @@ pub fn oracle_a<K: Kind>(
     let tol = seg_tol(&ks.cfg, d);
     let mut pos: Vec<f64> = vec![0.0, d];
     let mut rejected_on = false;
-    for i in 0..upto.min(log.states.len()) {
+    for i in from..upto.min(log.states.len()) {
         let s = &log.states[i];
         let da = ks.sp.distance(&sa, s);
         if !(da <= d + tol) {
@@ -459,7 +460,7 @@ fn c03_k<K: Kind>(case: &PlanCase, trace: &Trace, ctx: &mut Ctx) {
         let mut long_edge = false;
         for k in 0..p.len().saturating_sub(1) {
             let (a, b) = (&p[k], &p[k + 1]);
-            let (gap, d, n_on, _rej) = oracle_a(&ks, lg, st.vlog.1, a, b);
+            let (gap, d, n_on, _rej) = oracle_a(&ks, lg, 0, st.vlog.1, a, b);
             let tol = seg_tol(&case.space, d);
             let ek = edge_kind(case, &st.snap, p, k);
             ctx.label(format!("edge:{ek}"));
